@@ -634,3 +634,76 @@ def _reachable_block(fn, target):
             if t.get("target") is not None:
                 st.append(t["target"])
     return False
+
+
+# ---- the counter words' bit layout, read from the code that uses it (constant *names* are only labels) ----------------
+
+def _bin_consts(f, op):
+    """integer constants that are an operand of a `op` binary rvalue in f (own body only)."""
+    out = []
+    for b in f.blocks:
+        for s in b["stmts"]:
+            if s["k"] == "assign" and s["rv"]["k"] == "bin" and s["rv"]["op"] == op:
+                for o in (s["rv"]["a"], s["rv"]["b"]):
+                    if o["k"] == "const" and isinstance(o.get("val"), int):
+                        out.append(o["val"])
+    return out
+
+
+def _assigned_consts(f):
+    out = []
+    for b in f.blocks:
+        for s in b["stmts"]:
+            if s["k"] == "assign" and s["rv"]["k"] == "use" and s["rv"]["op"]["k"] == "const" and isinstance(s["rv"]["op"].get("val"), int) and s["rv"]["op"].get("ty") == "u16":
+                out.append(s["rv"]["op"]["val"])
+        t = b["term"]
+        if t["k"] == "call":
+            for a in t["args"]:
+                if a["k"] == "const" and isinstance(a.get("val"), int) and a.get("ty") == "u16":
+                    out.append(a["val"])
+    return out
+
+
+def _one(vals):
+    s = set(vals)
+    return next(iter(s)) if len(s) == 1 else None
+
+
+def word_layout(F):
+    """{'CMASK', 'MAX', 'FM', 'FB', 'BM', 'marks', 'INIT'} of the strong word pair and {'WCMASK', 'WMAX', 'AM', 'WINIT'} of the weak
+    word, each taken from the function that *uses* it: the mask a getter ANDs with, the limit an increment compares with, the
+    values a constructor stores. None when the using function does not have exactly one such constant."""
+    L = {}
+    g = lambda n: F.fn(n)
+    f = g(CM + "counter")
+    L["CMASK"] = _one(_bin_consts(f, "BitAnd")) if f else None
+    f = g(CM + "increment_counter")
+    L["MAX"] = F.const("counter_marker::MAX")     # pub(crate), shared with other modules; by use when it is not found under that name
+    if L["MAX"] is None and f:
+        L["MAX"] = _one([v for v in _bin_consts(f, "Eq") + _bin_consts(f, "Ne") if v != L["CMASK"]])
+    f = g(CM + "is_in_list_or_queue")
+    L["FB"] = _one(_bin_consts(f, "BitAnd")) if f else None
+    f = g(CM + "is_in_possible_cycles")
+    L["BM"] = _one(_bin_consts(f, "BitAnd")) if f else None
+    marks = {}
+    for nm in ("is_in_possible_cycles", "is_in_list", "is_in_queue"):
+        f = g(CM + nm)
+        marks[nm] = _one(_bin_consts(f, "Eq")) if f else None
+    L["marks_by_getter"] = marks
+    f = g(CM + "is_finalized") or g(CM + "needs_finalization")
+    L["FM"] = _one(_bin_consts(f, "BitAnd")) if f else None
+    f = g(CM + "has_allocated_for_metadata")
+    L["MB"] = _one(_bin_consts(f, "BitAnd")) if f else None
+    f = g(CM + "new_with_counter_to_one")
+    L["INIT"] = sorted(set(_assigned_consts(f))) if f else None
+    f = g(WCM + "counter")
+    L["WCMASK"] = _one(_bin_consts(f, "BitAnd")) if f else None
+    f = g(WCM + "increment_counter")
+    L["WMAX"] = F.const("weak::weak_counter_marker::MAX")
+    if L["WMAX"] is None and f:
+        L["WMAX"] = _one(_bin_consts(f, "Eq") + _bin_consts(f, "Ne"))
+    f = g(WCM + "is_accessible")
+    L["AM"] = _one(_bin_consts(f, "BitAnd")) if f else None
+    f = g(WCM + "new")
+    L["WINIT"] = sorted(set(_assigned_consts(f))) if f else None
+    return L
